@@ -186,15 +186,17 @@ CHECKS = {
     },
     "C11": {
         "level": "exploration",
-        "technique": "model-based stateful property testing driving the real janitor goroutine with a fake clock",
+        "technique": "model-based stateful property testing on a fake clock: cleanup cycles invoked one by one through a hook (exact model) and the real janitor goroutine (banded model)",
         "design_ref": "DESIGN.md section 6 C11",
-        "text": "Histories of writes (no / short / long / negative explicit TTL), deletes and clock jumps that land 1ns before, "
-                "exactly at and 1ns after janitor ticks are generated for finite and Unlimited TimeToLive on all backends; "
-                "after every jump the reference model removes exactly the entries with E!=0 and E < tick - DeleteExpiredAfter "
-                "and Len, Walk and a Read of every key are compared. Sampled search.",
-        "note": "The janitor is the library's own goroutine, scheduled by the synctest fake clock (ticks at t0+k*interval). "
-                "Expiry arises only through TTLs (ExpireAll on a scan-exempt Unlimited cache is outside the statement).",
-        "assumptions": ["no eviction limit configured", "expiry arises through TTLs only"],
+        "text": "Histories of writes (no / short / long / negative explicit TTL), deletes, ExpireAll, entries arriving through "
+                "Restore, same-shard masses of hundreds of entries and clock jumps around the job interval and "
+                "DeleteExpiredAfter (explicit or default) are generated for finite and Unlimited TimeToLive on all backends. "
+                "Hook driver: a cycle at instant t removes exactly the entries with E!=0 and E < t - DeleteExpiredAfter; "
+                "real janitor: an entry is missing only if E < now - d, and is gone if E < now - i - d, it was written more than "
+                "i ago and the cache is older than i. Len, Walk and a Read of every key are compared. Sampled search.",
+        "note": "No assumption about the phase of the janitor's cycles, only that consecutive cycles are one interval apart "
+                "and the first one comes within one interval (false alarm 22).",
+        "assumptions": ["no eviction limit exceeded when a cycle runs", "consecutive janitor cycles are DeleteExpiredJobInterval apart, the first within one interval of creation"],
         "jobs": [
             {"run": "^TestC11Janitor$", "n": {"quick": 10000, "thorough": 100000}},
             {"run": "^TestC11FailoverOwnedBackend$", "n": {"quick": 3000, "thorough": 30000}},
@@ -202,7 +204,7 @@ CHECKS = {
     },
     "C12": {
         "level": "exploration",
-        "technique": "property-based testing of eviction cycles (real janitor, fake clock) against amount and rank oracles",
+        "technique": "property-based testing of eviction cycles (hook-invoked and real janitor, fake clock) against amount and rank oracles",
         "design_ref": "DESIGN.md section 6 C12",
         "text": "Populations, access histories (fresh reads at generated instants / with generated counts, ties included), "
                 "limits, fractions, strategies and EvictionNeeded scripts are generated; after each real cleanup cycle the "
